@@ -19,8 +19,10 @@ TRUSTED_BASE = [
 ASSUMPTIONS = ["strings are sequences of Unicode scalar values"]
 TECHNIQUE = "Coq proof that the model of _decode_string_literal/_unescape_string (index arithmetic, two str.replace passes) equals the RFC decoder on every lexer-accepted body; differential runs of compile() on generated literals"
 LEVEL = "proof"
-LEVEL_TEXT = ("Theorems in Props/C09.v: for both quote styles and every body the lexer lets through, the parser model's decoding equals the RFC value, and rejects exactly the non-derivable bodies; "
-              "surrogate-pair arithmetic proved for all 1024x1024 pairs. Tied to the code by differential testing in both literal positions.")
+LEVEL_TEXT = ("Theorems in Props/C09.v: C09_decode (both quote styles, every body the lexer lets through: the parser model's decoding, including the two str.replace passes and the index arithmetic, "
+              "equals the RFC value and rejects exactly the non-derivable bodies, never IndexError); C09_literal_end_to_end (from any lexer state the string states turn a body the RFC derives plus its closing quote "
+              "into one token holding that body, and the parser decodes it to the RFC value); C09_lexer_rejects; surrogate-pair arithmetic for all 1024x1024 pairs. "
+              "Where the literal sits in a whole query, and the model itself, are tied to the code by differential testing in both literal positions.")
 LEVEL_NOTE = "Trusted: Coq kernel; Spec/StringLit.v as a reading of the RFC; correspondence; extraction and driver."
 
 SIMPLE = ["\\b", "\\f", "\\n", "\\r", "\\t", "\\/", "\\\\"]
